@@ -123,6 +123,95 @@ theorem splitVU_prog (hr : IsRN q r) (f : Fmt) (cb : Nat) {s : ℕ} (hC : (decod
   rw [evalQ_splitVU f r _ _ cb hC]
   exact ⟨_, _, rfl, veltkamp' hr hs1 hsp hk1 hk2 he⟩
 
+theorem evalQ_splitVScale (f : Fmt) (r : ℚ → ℚ) (x C Xm iN N : ℚ) (xmb zb oneb cb invb nb : Nat)
+    (hC : (decode f cb).toRat? = some C) (hXm : (decode f xmb).toRat? = some Xm) (hZ : (decode f zb).toRat? = some 0)
+    (h1 : (decode f oneb).toRat? = some 1) (hi : (decode f invb).toRat? = some iN) (hN : (decode f nb).toRat? = some N) :
+    evalQ f r (splitVScale xmb zb oneb cb invb nb) splitVScaleOuts [x] =
+      (let ax := if x < 0 then -x else x
+       let xn := if ax < 1 then x else r (iN * x)
+       let g := r (C * xn)
+       let gd := r (g - r (g - xn))
+       let xh := if Xm < ax then (if x < 0 then -Xm else Xm) else (if ax < 1 then gd else r (gd * N))
+       some [xh, r (x - xh)]) := by
+  simp [evalQ, evalNodesQ, evalNodeQ, splitVScale, splitVScaleOuts, hC, hXm, hZ, h1, hi, hN, q2b]
+  split_ifs <;> first | rfl | (exfalso; linarith) | simp_all
+
+/-- **The scaled splitter** (`split_veltkamp(x, scale=True)`) on every normal |x| ≤ x_max: the scaling by
+1/N = 2^−t and back by N = 2^t is exact, so the halves have the same properties as without scaling. -/
+theorem splitVScale_prog (hr : IsRN q r) (f : Fmt) (xmb zb oneb cb invb nb : Nat) {s t : ℕ} (Xm : ℚ)
+    (hC : (decode f cb).toRat? = some (2 ^ s + 1)) (hXm : (decode f xmb).toRat? = some Xm) (hZ : (decode f zb).toRat? = some 0)
+    (h1 : (decode f oneb).toRat? = some 1) (hi : (decode f invb).toRat? = some (1 / 2 ^ t)) (hN : (decode f nb).toRat? = some (2 ^ t))
+    (hs1 : 1 ≤ s) (hsp : s < q.p) {k e : ℤ} (hk1 : 2 ^ (q.p - 1) ≤ |k|) (hk2 : |k| < 2 ^ q.p) (he : q.emin ≤ e - t)
+    (hxm : |(k : ℚ) * 2 ^ e| ≤ Xm) :
+    ∃ xh xl : ℚ, evalQ f r (splitVScale xmb zb oneb cb invb nb) splitVScaleOuts [(k : ℚ) * 2 ^ e] = some [xh, xl] ∧
+      xh + xl = (k : ℚ) * 2 ^ e ∧ Mult (e + s) xh ∧ |xh| ≤ 2 ^ q.p * 2 ^ e ∧ Mult e xl ∧ |xl| ≤ 2 ^ (e + s) / 2 := by
+  rw [evalQ_splitVScale f r _ _ Xm _ _ xmb zb oneb cb invb nb hC hXm hZ h1 hi hN]
+  set x : ℚ := (k : ℚ) * 2 ^ e with hx
+  have habs : (if x < 0 then -x else x) = |x| := by
+    split
+    · rw [abs_of_neg ‹_›]
+    · rw [abs_of_nonneg (not_lt.mp ‹_›)]
+  simp only [habs]
+  have hnot : ¬ (Xm < |x|) := not_lt.mpr hxm
+  simp only [hnot, if_false]
+  by_cases hlt : |x| < 1
+  · -- no scaling
+    simp only [hlt, if_true]
+    have he' : q.emin ≤ e := by have : (0 : ℤ) ≤ t := Int.natCast_nonneg t; omega
+    exact ⟨_, _, rfl, veltkamp hr hs1 hsp hk1 hk2 he'⟩
+  · simp only [hlt, if_false]
+    -- x_n = x·2^−t = k·2^(e−t), exactly
+    have h2t : (0 : ℚ) < 2 ^ t := by positivity
+    have hxn : (1 / 2 ^ t : ℚ) * x = (k : ℚ) * 2 ^ (e - t) := by
+      rw [hx, zpow_sub₀ (by norm_num : (2 : ℚ) ≠ 0), zpow_natCast]; field_simp
+    have hrep_xn : Rep q ((k : ℚ) * 2 ^ (e - t)) := ⟨k, e - t, rfl, hk2, he⟩
+    rw [hxn, rn_id hr hrep_xn]
+    obtain ⟨a1, a2, a3, a4, a5⟩ := veltkamp hr hs1 hsp hk1 hk2 he
+    generalize r (r ((2 ^ s + 1) * ((k : ℚ) * 2 ^ (e - ↑t))) - r (r ((2 ^ s + 1) * ((k : ℚ) * 2 ^ (e - ↑t))) - (k : ℚ) * 2 ^ (e - ↑t))) = gh at *
+    generalize r ((k : ℚ) * 2 ^ (e - ↑t) - gh) = gl at *
+    -- scale back
+    have hsc : ∀ {j : ℤ} {z : ℚ}, Mult (j - t) z → Mult j (z * 2 ^ t) := by
+      intro j z hz
+      obtain ⟨m, rfl⟩ := hz
+      refine ⟨m, ?_⟩
+      rw [zpow_sub₀ (by norm_num : (2 : ℚ) ≠ 0), zpow_natCast]; field_simp
+    have hM : Mult (e + s) (gh * 2 ^ t) := hsc (by rwa [show e + (s : ℤ) - t = e - t + s by ring])
+    have h2e : (2 : ℚ) ^ (e - t) * 2 ^ t = 2 ^ e := by
+      rw [zpow_sub₀ (by norm_num : (2 : ℚ) ≠ 0), zpow_natCast]; field_simp
+    have hB : |gh * 2 ^ t| ≤ 2 ^ q.p * 2 ^ e := by
+      rw [abs_mul, abs_of_pos h2t]
+      calc |gh| * 2 ^ t ≤ 2 ^ q.p * 2 ^ (e - t) * 2 ^ t := mul_le_mul_of_nonneg_right a3 h2t.le
+        _ = 2 ^ q.p * 2 ^ e := by rw [mul_assoc, h2e]
+    have hs2 : (2 : ℚ) ^ (e + (s : ℤ)) = 2 ^ e * 2 ^ s := by rw [zpow_add₀ (by norm_num : (2 : ℚ) ≠ 0), zpow_natCast]
+    have hrep_xh : Rep q (gh * 2 ^ t) := by
+      apply rep_of_mult_le (by have : (0 : ℤ) ≤ t := Int.natCast_nonneg t; omega) hM
+      refine le_trans hB ?_
+      rw [hs2]
+      have : (1 : ℚ) ≤ 2 ^ s := one_le_pow₀ (by norm_num)
+      have h2e' : (0 : ℚ) < 2 ^ e := zpow_pos (by norm_num) _
+      have hp : (0 : ℚ) < 2 ^ q.p := by positivity
+      nlinarith [mul_pos hp h2e']
+    rw [rn_id hr hrep_xh]
+    have hxl_eq : x - gh * 2 ^ t = gl * 2 ^ t := by
+      have : (k : ℚ) * 2 ^ (e - t) = gh + gl := a1.symm
+      rw [hx, ← h2e, ← mul_assoc, this]; ring
+    have hMl : Mult e (gl * 2 ^ t) := hsc a4
+    have hs3 : (2 : ℚ) ^ (e - t + (s : ℤ)) * 2 ^ t = 2 ^ (e + (s : ℤ)) := by
+      rw [show e - (t : ℤ) + s = e + s - t by ring, zpow_sub₀ (by norm_num : (2 : ℚ) ≠ 0), zpow_natCast]; field_simp
+    have hBl : |gl * 2 ^ t| ≤ 2 ^ (e + (s : ℤ)) / 2 := by
+      rw [abs_mul, abs_of_pos h2t, ← hs3]
+      calc |gl| * 2 ^ t ≤ 2 ^ (e - t + (s : ℤ)) / 2 * 2 ^ t := mul_le_mul_of_nonneg_right a5 h2t.le
+        _ = 2 ^ (e - t + (s : ℤ)) * 2 ^ t / 2 := by ring
+    have hrep_xl : Rep q (gl * 2 ^ t) := by
+      apply rep_of_mult_le (by have : (0 : ℤ) ≤ t := Int.natCast_nonneg t; omega) hMl
+      refine le_trans hBl ?_
+      rw [hs2]
+      have hsn : (2 : ℚ) ^ s ≤ 2 ^ q.p := pow_le_pow_right₀ (by norm_num) (by omega)
+      have h2e' : (0 : ℚ) < 2 ^ e := zpow_pos (by norm_num) _
+      nlinarith [mul_pos h2e' (by positivity : (0 : ℚ) < 2 ^ s)]
+    rw [hxl_eq, rn_id hr hrep_xl]
+    exact ⟨_, _, rfl, by rw [← hxl_eq]; ring, hM, hB, hMl, hBl⟩
+
 theorem evalQ_mulDekker (f : Fmt) (r : ℚ → ℚ) (x y C : ℚ) (cb : Nat) (hC : (decode f cb).toRat? = some C) :
     evalQ f r (mulDekker cb) mulDekkerOuts [x, y] =
       (let xh := r (r (C * x) - r (r (C * x) - x))
